@@ -31,7 +31,7 @@ func (a *AlternativeResult) Spec_rounded() *AlternativeResult {
 	return &AlternativeResult{
 		Alternative: a.Alternative,
 		// C03/C04: the API rounds every utility to 1e-8
-		Evaluation: EvaluationSingleValue{math.Round(1e8*a.Value()) / 1e8},
+		Evaluation: EvaluationSingleValue{math.Round(1e8*a.Spec_Value()) / 1e8},
 	}
 }
 
@@ -50,10 +50,10 @@ func (a *AlternativeResults) Spec_Len() int {
 func (a *AlternativeResults) Spec_Less(i, j int) bool {
 	// C04: non-increasing value, equal values by ascending alternative id
 	first, second := (*a)[i], (*a)[j]
-	if first.Value() > second.Value() {
+	if first.Spec_Value() > second.Spec_Value() {
 		return true
 	}
-	if first.Value() < second.Value() {
+	if first.Spec_Value() < second.Spec_Value() {
 		return false
 	}
 	return first.Alternative.Id < second.Alternative.Id
@@ -67,12 +67,12 @@ func (a *AlternativeResults) Spec_Ranking() *AlternativesRanking {
 	alternativesNum := len(*a)
 	alternativeResults := make(AlternativeResults, alternativesNum)
 	for i, alt := range *a {
-		alternativeResults[i] = *alt.rounded()
+		alternativeResults[i] = *alt.Spec_rounded()
 	}
 	sort.Sort(&alternativeResults)
 	ranking := make(AlternativesRanking, alternativesNum)
 	for i, r := range alternativeResults {
-		ranking[i] = *r.positionInRanking(&alternativeResults)
+		ranking[i] = *r.Spec_positionInRanking(&alternativeResults)
 	}
 	return &ranking
 }
@@ -80,19 +80,19 @@ func (a *AlternativeResults) Spec_Ranking() *AlternativesRanking {
 func (a *AlternativeResult) Spec_positionInRanking(allAlternatives *AlternativeResults) *AlternativesRankEntry {
 	var betterThanOrSameAs = Alternatives{}
 	wasLowerValueFound := false
-	nextLowerThanAltValue := a.Value()
+	nextLowerThanAltValue := a.Spec_Value()
 	for _, r := range *allAlternatives {
-		if r.Value() == a.Value() && r.Identifier() != a.Identifier() {
-			betterThanOrSameAs = append(betterThanOrSameAs, r.Identifier())
-		} else if r.Value() < a.Value() {
+		if r.Spec_Value() == a.Spec_Value() && r.Spec_Identifier() != a.Spec_Identifier() {
+			betterThanOrSameAs = append(betterThanOrSameAs, r.Spec_Identifier())
+		} else if r.Spec_Value() < a.Spec_Value() {
 			if !wasLowerValueFound {
 				wasLowerValueFound = true
-				nextLowerThanAltValue = r.Value()
+				nextLowerThanAltValue = r.Spec_Value()
 			}
-			if r.Value() < nextLowerThanAltValue {
+			if r.Spec_Value() < nextLowerThanAltValue {
 				break
 			}
-			betterThanOrSameAs = append(betterThanOrSameAs, r.Identifier())
+			betterThanOrSameAs = append(betterThanOrSameAs, r.Spec_Identifier())
 		}
 	}
 	return &AlternativesRankEntry{
@@ -102,15 +102,15 @@ func (a *AlternativeResult) Spec_positionInRanking(allAlternatives *AlternativeR
 }
 
 func (a *AlternativeWithCriteria) Spec_CriterionValue(criterion *Criterion) Weight {
-	return a.CriterionRawValue(criterion) * Weight(criterion.Multiplier())
+	return a.Spec_CriterionRawValue(criterion) * Weight(criterion.Spec_Multiplier())
 }
 
 func (a *AlternativeWithCriteria) Spec_WithCriteriaOnly(criteria *Criteria) *AlternativeWithCriteria {
 	newCriteria := make(Weights, len(*criteria))
 	for _, c := range *criteria {
-		newCriteria[c.Id] = a.CriterionRawValue(&c)
+		newCriteria[c.Id] = a.Spec_CriterionRawValue(&c)
 	}
-	return a.WithCriteriaValues(&newCriteria)
+	return a.Spec_WithCriteriaValues(&newCriteria)
 }
 
 func (a *AlternativeWithCriteria) Spec_WithCriteriaValues(criteriaValues *Weights) *AlternativeWithCriteria {
@@ -162,7 +162,7 @@ func Spec_AddCriterionToAlternatives(
 	newAlts := make([]AlternativeWithCriteria, len(*alternatives))
 	for i, a := range *alternatives {
 		newValue := valueProvider(&a)
-		newAlts[i] = *a.WithCriterion(newCriterion.Id, newValue)
+		newAlts[i] = *a.Spec_WithCriterion(newCriterion.Id, newValue)
 	}
 	return &newAlts
 }
@@ -176,16 +176,16 @@ func (a *AlternativeWithCriteria) Spec_WithCriterion(name string, value Weight) 
 		criteria[k] = v
 	}
 	criteria[name] = value
-	return a.WithCriteriaValues(&criteria)
+	return a.Spec_WithCriteriaValues(&criteria)
 }
 
 func Spec_CriteriaValuesRange(alternatives *[]AlternativeWithCriteria, criterion *Criterion) *utils.ValueRange {
 	if criterion.ValuesRange != nil {
 		return criterion.ValuesRange
 	}
-	valRange := utils.NewValueRange()
+	valRange := utils.Spec_NewValueRange()
 	for i, a := range *alternatives {
-		value := a.CriterionRawValue(criterion)
+		value := a.Spec_CriterionRawValue(criterion)
 		if i == 0 {
 			valRange.Max = value
 			valRange.Min = value
@@ -204,7 +204,7 @@ func Spec_CriteriaValuesRange(alternatives *[]AlternativeWithCriteria, criterion
 func Spec_PreserveCriteriaForAlternatives(alternatives *[]AlternativeWithCriteria, criteria *Criteria) *[]AlternativeWithCriteria {
 	result := make([]AlternativeWithCriteria, len(*alternatives))
 	for i, a := range *alternatives {
-		result[i] = *a.WithCriteriaOnly(criteria)
+		result[i] = *a.Spec_WithCriteriaOnly(criteria)
 	}
 	return &result
 }
